@@ -125,6 +125,30 @@ def prefix_lengths(n):
     return sorted(s)
 
 
+def malformed_inputs(chk, T, ctx):
+    """Feeds the decoders input no encoder produces (text cut inside a character, stray continuation bytes, lengths
+    beyond the data, bad booleans / UUID text).  The outcome of those decodes is not judged; what is judged is that
+    nothing lingers: a valid encoding decoded right afterwards (and the valid rows that follow) reads as before."""
+    bad = [(T.String, b'\x03ab\xc3'), (T.String, b'\x02\xe2\x82'), (T.String, b'\x01\x80'), (T.String, b'\x04\xf0\x9f\x98'),
+           (T.String, b'\x05ab'), (T.VarInt, b'\xff\xff\xff\xff\xff\xff\xff'), (T.VarIntPrefixedByteArray, b'\x09abc'),
+           (T.UUID, b'\x00' * 7), (T.Boolean, b''), (T.Double, b'\x7f\xf8')]
+    good = [(T.String, b'\x02ab', 'ab'), (T.String, b'\x05\xc3\xa9\xe2\x82\xac', '\xe9\u20ac'), (T.VarInt, b'\xac\x02', 300),
+            (T.String, b'\x00', '')]
+    for n, (ty, data) in enumerate(bad):
+        for kind in ('packetbuffer', 'counting'):
+            stream, _ = open_stream(kind, data)
+            run_with_budget(lambda: ty.read_with_context(stream, ctx), 20000)
+            for gty, gdata, want in good:
+                gs, _ = open_stream(kind, gdata + b'\x55')
+                got = run_with_budget(lambda: gty.read_with_context(gs, ctx), 20000)
+                got = got[1] if got[0] == 'ok' else '%s %r' % got
+                if got != want or gs.read(2) != b'\x55':
+                    chk.violation('%s.read:after-malformed-input' % gty.__name__,
+                                  'after %s.read was given the malformed input %s, the valid encoding %s decoded as %r (expected %r)'
+                                  % (ty.__name__, data.hex(), gdata.hex(), got, want), {'malformed': data.hex(), 'then': gdata.hex()})
+                    return
+
+
 def replay_row(chk, T, ctx, row, stats):
     ty, v, b = row['ty'], row['v'], bytes(row['b'])
     alts = [bytes(a) for a in row['alt']]
@@ -286,6 +310,8 @@ def run(chk):
         per_type[name] = per_type.get(name, 0) + 1
         chk.case((name, json.dumps(row['v'], sort_keys=True)[:200], len(row['b'])))
         chk.traces += 1
+        if i % 997 == 5:
+            malformed_inputs(chk, T, ctx)   # whatever a decoder made of malformed input must not affect later decodes
         replay_row(chk, T, ctx, row, stats)
         if per_type[name] == 3 and len(row['b']) < 40:
             chk.sample({'type': name, 'value': row['v'], 'bytes': bytes(row['b']).hex()}, limit=12)
